@@ -279,6 +279,50 @@ fn shape(c: &Constraint) -> &'static str {
     }
 }
 
+/// Upper bounds beyond i64 (2^63 .. 2^64): asn1rs documents a 64-bit (i64) design and refuses such
+/// ranges. A refusal is fine; if a range is accepted, the type must hold it (u64 for lb >= 0,
+/// nothing for lb < 0 or 2^64) and the model bounds must be the declared ones.
+pub fn beyond_i64_cases() -> Vec<(String, Result<&'static str, Fail>)> {
+    let mut out = Vec::new();
+    let uppers: [(&str, i128); 4] = [("9223372036854775808", 1i128 << 63), ("9223372036854775809", (1i128 << 63) + 1), ("18446744073709551615", u64::MAX as i128), ("18446744073709551616", 1i128 << 64)];
+    let lowers: [(&str, i128); 5] = [("0", 0), ("5", 5), ("-5", -5), ("MIN", i64::MIN as i128), ("9223372036854775807", i64::MAX as i128)];
+    for (ut, u) in uppers {
+        for (lt, l) in lowers {
+            for ext in [false, true] {
+                let asn = format!("INTEGER ({lt}..{ut}{})", if ext { ", ..." } else { "" });
+                let text = format!("Big DEFINITIONS AUTOMATIC TAGS ::= BEGIN\nT ::= {asn}\nEND\n");
+                let verdict = (|| -> Result<&'static str, Fail> {
+                    let model = match parse_and_resolve(&text) {
+                        Ok(m) => m,
+                        Err(_) => return Ok("beyond-i64:refused"),
+                    };
+                    let rust = catch(|| model.to_rust()).map_err(|p| ("beyond-i64:to_rust-panic".to_string(), format!("{asn}: to_rust panicked: {p}")))?;
+                    let ty = rust.definitions.iter().find_map(|d| match &d.1 {
+                        Rust::TupleStruct { r#type, .. } if d.0 == "T" => Some(r#type.clone()),
+                        _ => None,
+                    });
+                    let Some(ty) = ty else { return Err(("harness:lookup".into(), format!("{asn}: T not found"))) };
+                    let (name, recorded) = rust_type_name(&ty);
+                    let (lo, hi) = type_range(&name);
+                    if l < lo || u > hi {
+                        return Err(("beyond-i64:type-too-narrow".into(), format!("{asn} is accepted with the Rust type {name}, which cannot hold every permitted value ({l}..{u})")));
+                    }
+                    if let Some((_, rec_hi)) = recorded {
+                        if !ext && rec_hi != u {
+                            return Err(("beyond-i64:model-bounds".into(), format!("{asn} is accepted, but the Rust model records the upper bound {rec_hi}")));
+                        }
+                    } else if !ext && !(l == 0 && u == u64::MAX as i128) {
+                        return Err(("beyond-i64:model-bounds".into(), format!("{asn} is accepted as unconstrained {name}: the declared bounds are lost")));
+                    }
+                    Ok("beyond-i64:accepted-and-representable")
+                })();
+                out.push((asn, verdict));
+            }
+        }
+    }
+    out
+}
+
 pub fn family() -> Vec<i64> {
     let mut v: Vec<i128> = (-20..=20).collect();
     for k in 0..=63u32 {
@@ -294,12 +338,19 @@ pub fn family() -> Vec<i64> {
     v.into_iter().map(|x| x as i64).collect()
 }
 
-const RULE: &str = "bounded-exhaustive: all ordered pairs (min <= max) from B = {0, +-1, +-2^k, +-2^k+-1 : k <= 63} U [-20, 20] as INTEGER (min..max) and (min..max, ...), every b in B as (b..MAX), (MIN..b) and their extensible forms, plus INTEGER, (MIN..MAX) and (MIN..MAX, ...); each as top-level definition and as SEQUENCE field (500 per module), pushed through tokenizer, parser, resolver, to_rust and RustCodeGenerator. Oracle (own function): finite non-extensible -> the narrowest of u8/u16/u32/u64 (lb >= 0) or i8/i16/i32/i64 containing [lb, ub]; (lb..MAX) -> u64 / i64 by sign of lb; (MIN..ub) -> i64; unconstrained / (0..MAX) / (MIN..MAX) -> u64 as the README documents; extensible -> a 64-bit type containing the root; bounds in the Rust model and the generated *_min()/*_max() bodies equal the declared bounds. Non-trivial: every constraint except (x..x) duplicates; distinct = the constraint.";
+const RULE: &str = "bounded-exhaustive: all ordered pairs (min <= max) from B = {0, +-1, +-2^k, +-2^k+-1 : k <= 63} U [-20, 20] as INTEGER (min..max) and (min..max, ...), every b in B as (b..MAX), (MIN..b) and their extensible forms, plus INTEGER, (MIN..MAX) and (MIN..MAX, ...); each as top-level definition and as SEQUENCE field (500 per module), pushed through tokenizer, parser, resolver, to_rust and RustCodeGenerator. Oracle (own function): finite non-extensible -> the narrowest of u8/u16/u32/u64 (lb >= 0) or i8/i16/i32/i64 containing [lb, ub]; (lb..MAX) -> u64 / i64 by sign of lb; (MIN..ub) -> i64; unconstrained / (0..MAX) / (MIN..MAX) -> u64 as the README documents; extensible -> a 64-bit type containing the root; bounds in the Rust model and the generated *_min()/*_max() bodies equal the declared bounds. Plus upper bounds beyond i64 (2^63, 2^63+1, 2^64-1, 2^64) with five lower bounds: refused, or accepted with a type and model bounds that hold the range. Non-trivial: every constraint except (x..x) duplicates; distinct = the constraint.";
 
 pub fn run(ctx: Ctx) -> i32 {
     let report = Report::new(ctx.clone(), RULE);
     report.assumption("no 64-bit type holds both halves of an unconstrained INTEGER: the documented choice (u64) is the oracle there");
     let replay = |c: &J| -> Result<(), Fail> {
+        if c["beyond_i64"].as_bool() == Some(true) {
+            let want = c["asn1"].as_str().unwrap_or("");
+            return match beyond_i64_cases().into_iter().find(|(a, _)| a == want) {
+                Some((_, v)) => v.map(|_| ()),
+                None => Err(("harness:replay".into(), "unknown beyond-i64 case".into())),
+            };
+        }
         let con = Constraint { lb: c["lb"].as_str().and_then(|s| s.parse().ok()), ub: c["ub"].as_str().and_then(|s| s.parse().ok()), ext: c["ext"].as_bool().unwrap_or(false), none: c["none"].as_bool().unwrap_or(false) };
         match check_batch(&[con]).into_iter().next() {
             None => Ok(()),
@@ -366,6 +417,17 @@ pub fn run(ctx: Ctx) -> i32 {
         });
     });
     dead_workers_are_infra(&report, &bad);
+    if ctx.worker.is_none() {
+        for (asn, verdict) in beyond_i64_cases() {
+            report.eval(1);
+            match verdict {
+                Ok(class) => report.class(class, 1),
+                Err((key, msg)) => {
+                    report.fail(&key, &msg, json!({"asn1": asn, "beyond_i64": true}));
+                }
+            }
+        }
+    }
     report.exhaustive(&format!("B x B with |B| = {} ({} constraints)", fam.len(), all.len()));
     report.finish()
 }
